@@ -76,6 +76,7 @@ type Contracts struct {
 	SpecCode []string // raw Go source blocks
 	Lemmas   []*Lemma
 	Guards   []GuardDecl
+	ChanInv  map[string]string // element type -> "nonnil neverclosed"
 	FnTypes  map[string]*FuncContract
 }
 
@@ -104,7 +105,7 @@ func splitTags(s string) []string {
 
 var keywords = map[string]bool{"func": true, "mode": true, "props": true, "inline": true, "requires": true, "let": true,
 	"assigns": true, "ensures": true, "loop": true, "spec": true, "end": true, "lemma": true, "fntype": true,
-	"guard": true, "trusted": true, "safe": true, "shape": true, "note": true, "pure": true, "events": true, "freshresult": true, "maxpaths": true}
+	"guard": true, "chan": true, "trusted": true, "safe": true, "shape": true, "note": true, "pure": true, "events": true, "freshresult": true, "maxpaths": true}
 
 // contractLines extracts the //@ lines of a file together with positions.
 func contractLines(fset interface{ PositionString(p ast.Node) string }, f *ast.File, posOf func(*ast.Comment) string) (lines []string, poss []string) {
@@ -227,6 +228,16 @@ func ParseContracts(lines, poss []string) (*Contracts, error) {
 			}
 			cs.Lemmas = append(cs.Lemmas, lm)
 			lastLemma = lm
+			cur = nil
+		case "chan":
+			f := strings.Fields(rest)
+			if len(f) < 2 {
+				return nil, fmt.Errorf("%s: malformed chan declaration", pos)
+			}
+			if cs.ChanInv == nil {
+				cs.ChanInv = map[string]string{}
+			}
+			cs.ChanInv[f[0]] = strings.Join(f[1:], " ")
 			cur = nil
 		case "guard":
 			f := strings.Fields(rest)
